@@ -8,9 +8,11 @@ import (
 	"os"
 	"os/exec"
 	"path/filepath"
+	"runtime"
 	"strconv"
 	"strings"
 	"sync"
+	"syscall"
 	"time"
 
 	"go.nanomsg.org/mangos/v3"
@@ -21,7 +23,14 @@ import (
 
 // wdog is the generous wall-clock watchdog of every wait on the macat child
 // (its exit, its output, its connection).  Its firing is always *inconclusive*.
-const wdog = 45 * time.Second
+const wdog = 30 * time.Second
+
+// envFailure is a failure of the harness's own environment (scratch directory
+// gone, no free descriptor, fork failed, ...).  It says nothing about macat: the
+// case wrapper turns it into an inconclusive outcome.
+type envFailure struct{ msg string }
+
+func envFail(format string, a ...interface{}) { panic(envFailure{fmt.Sprintf(format, a...)}) }
 
 // ---- the built binary ---------------------------------------------------------
 
@@ -74,24 +83,37 @@ type mproc struct {
 func startMacat(c *mon.Case, args []string) *mproc {
 	bin, err := macatBin()
 	if err != nil {
-		panic(err)
+		envFail("%v", err)
 	}
 	p := &mproc{args: args, note: make(chan struct{}, 1), done: make(chan struct{})}
 	p.cmd = exec.Command(bin, args...)
 	p.cmd.Dir = hx.ScratchDir()
 	p.cmd.Env = []string{"PATH=/usr/bin:/bin", "HOME=" + hx.ScratchDir()}
+	// the child must not outlive a test process that is killed by the driver's watchdog
+	p.cmd.SysProcAttr = &syscall.SysProcAttr{Pdeathsig: syscall.SIGKILL}
 	so, err := p.cmd.StdoutPipe()
 	if err != nil {
-		panic(err)
+		envFail("%v", err)
 	}
 	se, err := p.cmd.StderrPipe()
 	if err != nil {
-		panic(err)
+		envFail("%v", err)
 	}
 	c.Logf("start macat %s", showArgs(args))
 	p.t0 = mon.Now()
-	if err := p.cmd.Start(); err != nil {
-		panic(fmt.Sprintf("cannot start macat: %v", err))
+	// Pdeathsig is delivered when the *thread* that forked the child ends, so the
+	// fork is done on a thread that is pinned until the child has been reaped.
+	started := make(chan error, 1)
+	go func() {
+		runtime.LockOSThread()
+		err := p.cmd.Start()
+		started <- err
+		if err == nil {
+			<-p.done
+		}
+	}()
+	if err := <-started; err != nil {
+		envFail("cannot start macat: %v", err)
 	}
 	var wg sync.WaitGroup
 	wg.Add(2)
@@ -259,7 +281,7 @@ type peer struct {
 func freePort() string {
 	l, err := net.Listen("tcp", "127.0.0.1:0")
 	if err != nil {
-		panic(err)
+		envFail("%v", err)
 	}
 	defer l.Close()
 	return strconv.Itoa(l.Addr().(*net.TCPAddr).Port)
@@ -287,7 +309,7 @@ func newPeer(c *mon.Case, mproto, tr string, macatBinds bool) *peer {
 	})
 	must := func(err error) {
 		if err != nil {
-			panic(fmt.Sprintf("harness peer %s: %v", pe.proto, err))
+			envFail("harness peer %s: %v", pe.proto, err)
 		}
 	}
 	switch pe.proto {
@@ -322,13 +344,13 @@ func newPeer(c *mon.Case, mproto, tr string, macatBinds bool) *peer {
 func (pe *peer) dialPeer() {
 	d, err := pe.sock.NewDialer(pe.url, nil)
 	if err != nil {
-		panic(err)
+		envFail("%v", err)
 	}
 	_ = d.SetOption(mangos.OptionDialAsynch, true)
 	_ = d.SetOption(mangos.OptionReconnectTime, 3*time.Millisecond)
 	_ = d.SetOption(mangos.OptionMaxReconnectTime, 30*time.Millisecond)
 	if err := d.Dial(); err != nil {
-		panic(err)
+		envFail("%v", err)
 	}
 }
 
